@@ -22,6 +22,9 @@ MRSIGNER_OFF = 128
 
 NOW = datetime.datetime.now(datetime.timezone.utc)
 DAY = datetime.timedelta(days=1)
+# validity windows are laid around NOW + CLOCK_OFFSET (see pv/props/c07.py: cases run
+# under a shifted clock)
+CLOCK_OFFSET = datetime.timedelta(0)
 
 
 def new_key(rng, curve=None):
@@ -48,12 +51,13 @@ def name(cn):
 
 def make_cert(subject_cn, subject_pub, issuer_cn, issuer_key, window="valid", serial=1,
               ca=True):
+    now = NOW + CLOCK_OFFSET
     if window == "valid":
-        nb, na = NOW - 30 * DAY, NOW + 365 * DAY
+        nb, na = now - 30 * DAY, now + 365 * DAY
     elif window == "expired":
-        nb, na = NOW - 400 * DAY, NOW - 2 * DAY
+        nb, na = now - 400 * DAY, now - 2 * DAY
     elif window == "not_yet":
-        nb, na = NOW + 2 * DAY, NOW + 400 * DAY
+        nb, na = now + 2 * DAY, now + 400 * DAY
     else:
         raise ValueError(window)
     b = (x509.CertificateBuilder().subject_name(name(subject_cn)).issuer_name(name(issuer_cn))
